@@ -1,6 +1,7 @@
 package main
 
 import (
+	"strings"
 	"fmt"
 	"strconv"
 
@@ -381,6 +382,29 @@ func runC03(c *ShardCtx) {
 				}
 				g := &peg.Grammar{Rules: []*peg.Rule{{Name: "A", Expr: peg.Seq(e, peg.Lit("z"))}, ruleB()}}
 				check(g, []deviation{{fmt.Sprintf("class %s", e.Src), func(o *peg.PrintOpts) {}}}, 3)
+			}
+		}
+	}
+	// rule names that are Go predeclared identifiers or keywords (rule names are "valid identifiers";
+	// only labels become Go parameter names): defined, referenced at the end of a rule body (where
+	// the next rule's name follows), behind a label, in a choice
+	for _, w := range []string{"string", "nil", "len", "error", "true", "int", "iota", "type", "func", "range", "go"} {
+		for shape := 0; shape < 3; shape++ {
+			var g *peg.Grammar
+			switch shape {
+			case 0:
+				g = &peg.Grammar{Rules: []*peg.Rule{{Name: "A", Expr: peg.Seq(peg.Lit("a"), peg.Ref(w))}, {Name: w, Expr: peg.Lit("b")}}}
+			case 1:
+				g = &peg.Grammar{Rules: []*peg.Rule{{Name: w, Expr: peg.Choice(peg.Lit("b"), peg.Seq(peg.Lit("c"), peg.Ref(w)))}, {Name: "B", Display: "the B", Expr: peg.Label("x", peg.Ref(w))}}}
+			case 2:
+				g = &peg.Grammar{Rules: []*peg.Rule{{Name: "A", Expr: peg.Choice(peg.Ref(w), peg.Star(peg.Ref(w)))}, {Name: w, Expr: peg.Not(peg.Lit("b"))}}}
+			}
+			c.Res.Grammars++
+			check(g, nil, 3)
+			for _, d := range devs {
+				if strings.HasPrefix(d.name, "rulesep") || strings.HasPrefix(d.name, "defop") {
+					check(g, []deviation{d}, 3)
+				}
 			}
 		}
 	}
